@@ -312,6 +312,36 @@ def optional_parameter_case(kind, n=1, k=2):
     return Case(cname, body, goals, family="normal/optional_parameter", params=dict(kind=kind, n=n, k=k), max_paths=32)
 
 
+def dict_params_case(order):
+    """normal() handed its parameters as a DICT of two variables (documented alternative to Points), in either key order"""
+    cname = "normal/Circle[c(s),r(t)]/random/n1/k2/dict_parameters_%s" % "".join(order)
+
+    def body(env):
+        from .c17 import circle_ts
+        L = env.L
+        sh = circle_ts(env, tag="A")
+        P, rows = SH.params(env, sh.pvars, 2)
+        for prm in rows:
+            env.assume(sh.oset.positive(prm, L))
+        bd = sh.dom.boundary
+        pts = bd.sample_random_uniform(n=1, params=P)
+        co = P.coordinates
+        nrm = bd.normal(pts, {v: co[v] for v in order})
+        return dict(pts=pts.as_tensor, nrm=nrm, sh=sh, rows=rows)
+
+    def goals(o, L, env):
+        pts, nrm = o["pts"], _as_rows(o["nrm"])
+        yield "one_normal_per_point", len(nrm) == len(pts) == 2
+        if len(nrm) != len(pts):
+            return
+        for i, (p, nu) in enumerate(zip(pts, nrm)):
+            yield "unit[row%d]" % i, N.unit(nu, L, _tol(L))
+            for cn, f in N.claims(o["sh"].oset, list(p[:2]), nu, o["rows"][i], L, TAU, _tol(L)):
+                yield "outward:%s[row%d]" % (cn, i), f
+
+    return Case(cname, body, goals, family="normal/dict_parameters", params=dict(order="".join(order)), max_paths=32)
+
+
 # ---- generic boundary point of a piece -> real normal -------------------------------------------
 
 
@@ -557,6 +587,8 @@ def cases(tier):
     for n in (1, 3):
         cs.append(sampled_case(C, "grid", n, 0))
     cs.append(optional_parameter_case("Circle"))
+    for order in (("t", "s"), ("s", "t")):
+        cs.append(dict_params_case(order))
     cs.append(sampled_case(S, "grid", 2, 0, after_other=True))
     for e in (C, S, I):
         cs.append(sampled_case(e, "random", 1, 2, dep="t", joint=True))
